@@ -106,6 +106,23 @@ theorem default_for_null (env : FloatEnv) (tag atag : BStr) (t : GoTy) (r : GoFi
     simp only [hd] at this
     exact ⟨v, vr, by rw [h1, h2], this⟩
 
+/-- A dictionary-encoded (`enum` / `dict_string`) parameter holds the entry ITS row index selects
+— any dictionary, any position of the entry, unused entries before or after it. -/
+theorem enum_param_holds_selected_entry (env : FloatEnv) (tag atag : BStr) (t : GoTy) (r : GoFields)
+    (name : BStr) (es : List BStr) (i : Nat) (x : BStr) (cr : CFields) (vals : SFields)
+    (ht : tagged tag = true) (hs : derefTy t = .prim .str) (hx : es[i]? = some x)
+    (h : bindFields env (.cons tag atag t r) (.cons name (.dict es i) cr) = .ok vals) :
+    ∃ vr, vals = .cons tag atag (.str x) vr := by
+  have hb := (bindFields_bound env _ _ _).mp h
+  simp only [Bound, ht, if_true] at hb
+  cases vals with
+  | nil => exact hb.elim
+  | cons tag' atag' v vr =>
+    obtain ⟨h1, h2, h3, _⟩ := hb
+    have hv := h3.2 (by simp)
+    simp only [decode, hs, hx, Except.ok.injEq] at hv
+    exact ⟨vr, by rw [h1, h2, hv]⟩
+
 /-- "Each field holds the value sent": when no field declares a default, a struct serialized by
 this library (`encodeTop`, C08) and sent under the declared schema reaches the handler as C08's
 `canon` of it — the value sent, up to the documented precision. -/
